@@ -158,7 +158,7 @@ def handler_names(h: ast.ExceptHandler):
 
 
 class AbsInt:
-    def __init__(self, folder: Folder, summaries=None, max_depth=5, extra_exc_parents=None):
+    def __init__(self, folder: Folder, summaries=None, max_depth=14, extra_exc_parents=None):
         self.f = folder
         self.p = folder.p
         self.summaries = summaries or {}     # qname -> callable(interp, args, kwargs, node)
@@ -170,6 +170,7 @@ class AbsInt:
         self.extra_exc_parents = extra_exc_parents or {}
         self.inlined = set()
         self.global_overrides = {}      # (module name, global name) -> abstract value
+        self._yields = []               # collectors of the generators being (eagerly) evaluated
         self.method_hooks = []          # callables (interp, base, name, args, kwargs, node) -> value | _NO
 
     # --------------------------------------------------------------- explore
@@ -247,12 +248,21 @@ class AbsInt:
         self.inlined.add(info.qname)
         self.p.consulted.add(info.module.relpath)
         self.depth += 1
+        is_gen = _is_generator(fn)
+        if is_gen:
+            self._yields.append([])
         try:
             self.ex_block(fn.body, env, info.module)
         except _Ret as r:
+            if is_gen:
+                return AList(self._yields[-1], 'generator')
             return r.v
         finally:
             self.depth -= 1
+            if is_gen:
+                collected = self._yields.pop()
+        if is_gen:
+            return AList(collected, 'generator')
         return None
 
     # ------------------------------------------------------------- statements
@@ -408,6 +418,21 @@ class AbsInt:
 
     def _v_Constant(self, e, env, m):
         return e.value
+
+    def _v_Yield(self, e, env, m):
+        if not self._yields:
+            raise Unsupported('yield outside an abstractly evaluated generator')
+        v = self.ev(e.value, env, m) if e.value is not None else None
+        self._yields[-1].append(v)
+        log_event('yield', v)
+        return None
+
+    def _v_YieldFrom(self, e, env, m):
+        if not self._yields:
+            raise Unsupported('yield from outside an abstractly evaluated generator')
+        for v in self.iterate(self.ev(e.value, env, m), e, keep_vars=True):
+            self._yields[-1].append(v)
+        return None
 
     def _v_Name(self, e, env, m):
         if e.id in env:
@@ -690,6 +715,10 @@ class AbsInt:
             if x.is_const:
                 lo, hi = y.interval()
                 return _cmp_interval(_flip(op), lo - x.const, hi - x.const)
+            (xl, xh), (yl, yh) = x.interval(), y.interval()
+            if xh < yl or yh < xl:
+                # disjoint ranges decide every comparison
+                return _cmp_interval(op, xl - yh, xh - yl)
         if isinstance(a, LenV) and isinstance(b, (int, float)):
             return _cmp_len(op, a, b)
         if isinstance(b, LenV) and isinstance(a, (int, float)):
@@ -844,6 +873,20 @@ class AbsInt:
         if al is None or not (lo is None or isinstance(lo, int)) or not (hi is None or isinstance(hi, int)):
             return Opaque('slice')
         items = al.items
+        if any(hasattr(x, 'size_var') and isinstance(x.size_var(), int) and x.size_var() != 1 for x in items):
+            # byte-aware slicing of a buffer holding multi-byte fields: [:n] / [n:]
+            if (lo is None or lo == 0) and isinstance(hi, int) and hi >= 0:
+                out, used = [], 0
+                for x in items:
+                    if used == hi:
+                        break
+                    sz = x.size_var() if hasattr(x, 'size_var') else 1
+                    if isinstance(x, SeqVar) or not isinstance(sz, int) or used + sz > hi:
+                        return Opaque('slice cuts through a field')
+                    out.append(x)
+                    used += sz
+                return AList(out, al.kind)
+            return Opaque('slice of a field buffer')
         if not al.has_var():
             return AList(items[lo:hi], al.kind)
         # only trims from the concrete ends are supported
@@ -1074,6 +1117,9 @@ class AbsInt:
 
     def isinstance_(self, args, node):
         v, t = args
+        if hasattr(v, 'py_type'):
+            names = unparse(node.args[1])
+            return v.py_type in names
         if isinstance(v, AV):
             names = unparse(node.args[1])
             if 'Integral' in names or 'int' in names or 'Real' in names or 'Number' in names:
@@ -1233,6 +1279,26 @@ class LenV:
 
 
 _NO = object()
+
+
+_gen_cache = {}
+
+
+def _is_generator(fn):
+    k = id(fn)
+    if k not in _gen_cache:
+        found = False
+        todo = list(fn.body)
+        while todo:
+            n = todo.pop()
+            if isinstance(n, (ast.Yield, ast.YieldFrom)):
+                found = True
+                break
+            if isinstance(n, (ast.FunctionDef, ast.AsyncFunctionDef, ast.Lambda, ast.ClassDef)):
+                continue
+            todo.extend(ast.iter_child_nodes(n))
+        _gen_cache[k] = found
+    return _gen_cache[k]
 
 
 def _is_classmethod(fn):
